@@ -36,7 +36,7 @@ def run(tier, verdicts, stats, seed):
     try:
         calls, cfgs = plan_configs(u, tier)
         f0, f = exportlib.free_alphabet(calls)
-        const = os.path.join(vlib.BUILD, "thr-const-%d.json" % os.getpid())
+        const = os.path.join(vlib.TMP, "thr-const-%d.json" % os.getpid())
         # PREDICT: all interleavings of each plan configuration
         for ci, plans in enumerate(cfgs):
             u.write_constants(const, calls, f0, f, "empty")
@@ -75,9 +75,9 @@ def run(tier, verdicts, stats, seed):
             hp = [[dict(op="call", entry=calls[i - 1]["entry"], ty=calls[i - 1]["ty"], env=None, dir=calls[i - 1]["dir_s"], env_skip=True)
                    for i in p] for p in plans]
             recs.append({"rid": rid, "plans": hp, "pauses": r_["pauses"]})
-        rpath = os.path.join(vlib.BUILD, "thr-runs.ndjson")
-        opath = os.path.join(vlib.BUILD, "thr-obs.ndjson")
-        bpath = os.path.join(vlib.BUILD, "thr-blobs.json")
+        rpath = os.path.join(vlib.TMP, "thr-runs.ndjson")
+        opath = os.path.join(vlib.TMP, "thr-obs.ndjson")
+        bpath = os.path.join(vlib.TMP, "thr-blobs.json")
         vlib.write_ndjson(rpath, recs)
         p = subprocess.run([u.rt, "threads", u.sandbox, rpath, opath, bpath])
         if p.returncode != 0:
@@ -108,12 +108,12 @@ def run(tier, verdicts, stats, seed):
                 trees[tid] = ent
             trecs.append({"rid": rid, "plans": cfgs[r_["cfg"]], "events": o["events"], "poisoned": o["poisoned"], "tree": tree_ids[key]})
         u.write_constants(const, calls, f0, f, "empty")
-        tp = os.path.join(vlib.BUILD, "thr-trace.ndjson")
+        tp = os.path.join(vlib.TMP, "thr-trace.ndjson")
         vlib.write_ndjson(tp, trecs)
         files = {"VERIF_BLOBS": btab, "VERIF_PATHS": paths, "VERIF_TREES": trees}
         env = {"VERIF_UNIVERSE": const, "VERIF_TRACE": tp}
         for k, v in files.items():
-            fp = os.path.join(vlib.BUILD, "thr-%s.json" % k)
+            fp = os.path.join(vlib.TMP, "thr-%s.json" % k)
             json.dump(v, open(fp, "w"))
             env[k] = fp
         a = vlib.run_tlc("Trace_ExportThreads", "Trace_ExportThreads.cfg", workers=8, env=env, timeout=1500, tags=("OUT",), metatag="tet")
